@@ -15,6 +15,7 @@ For every case:   obj = K(arg) -> obj.encode(Tag) -> [Tag.app_to_context(n)] -> 
 import importlib
 import pkgutil
 import time
+import traceback
 
 import bv  # noqa: F401
 import bacpypes
@@ -27,7 +28,7 @@ from bv.refs import tagref as R
 
 PROPERTY = "C01"
 LEVEL = "exploration"
-BUDGET = {"quick": 60.0, "thorough": 840.0}
+BUDGET = {"quick": 55.0, "thorough": 840.0}
 RULE = ("every (Atomic subclass found by walking Atomic.__subclasses__() over all bacpypes modules, constructor "
         "argument of the class' boundary alphabet, tagging mode) is one case; alphabets are de-duplicated per class, "
         "so a case is distinct by (class, argument, mode); modes are application tagging and context tagging with "
@@ -55,7 +56,9 @@ BOUNDS = {
              "1024 types x 26 instances, Octet/CharacterString lengths 0..6, 251..256, 65533..65536, all strings of "
              "length <=3 over a 6 character alphabet, inbound character sets 3/4/5, every enumeration name and number of "
              "every table; modes app + ctx{0,14,15,254}; 3 representatives per class x ctx 0..254",
-    "thorough": "as quick with Unsigned/Enumerated 0..70000 and Integer -70000..70000, plus string length 70000",
+    "thorough": "as quick with Unsigned/Enumerated 0..70000 and Integer -70000..70000, plus string length 70000; the "
+                "length-boundary arguments of the base classes (integers beyond the dense range, every octet string, the "
+                "position-dependent character strings, bit strings longer than 64) are crossed with every context 0..254",
 }
 
 STD_MODES = (None, 0, 14, 15, 254)
@@ -507,6 +510,21 @@ def class_specs(K, tier):
     else:
         rep_specs = REPRESENTATIVES[kind]
     reps = set(freeze(s) for s in rep_specs)
+
+    def every_context(s):
+        """thorough: the length-boundary arguments of the base classes also meet every context number"""
+        if tier != "thorough" or K.__name__ != Tag._app_tag_class[kind].__name__:
+            return False
+        if kind in (R.UNSIGNED, R.INTEGER, R.ENUM):
+            return s[0] == "int" and abs(s[1]) > top
+        if kind == R.OCTETS:
+            return True
+        if kind == R.CHARS:
+            return s[0] == "postext"
+        if kind == R.BITS:
+            return len(s[1]) > 64
+        return False
+
     out = []
     seen = set()
     for s in list(rep_specs) + specs:
@@ -514,7 +532,7 @@ def class_specs(K, tier):
         if f in seen:
             continue
         seen.add(f)
-        out.append((s, ALL_MODES if f in reps else STD_MODES))
+        out.append((s, ALL_MODES if (f in reps or every_context(s)) else STD_MODES))
     return out
 
 
@@ -625,13 +643,26 @@ def check_mode(K, kind, spec, seed, exp, obj, tag, ctx):
 
     # canonical octets
     ref_octets = R.encode_value(kind, wirev, ctx)
-    if octets != ref_octets and not (kind in (R.REAL, R.DOUBLE) and wirev != wirev):
+    if kind in (R.REAL, R.DOUBLE) and wirev != wirev:
+        # NaN: the tag octets are fixed, the contents may be any NaN pattern of the right size
+        n = 4 if kind == R.REAL else 8
+        same_octets = (len(octets) == len(ref_octets) and octets[:-n] == ref_octets[:-n]
+                       and R.is_nan_bits(R.value_unsigned(octets[-n:]), 8 if n == 4 else 11, 23 if n == 4 else 52))
+    else:
+        same_octets = octets == ref_octets
+    if not same_octets:
         try:
             back = R.decode_value(kind, octets, ctx)
         except Exception as err:
             back = err
         detail = {"value": short(refv), "emitted": octets[:24], "reference": ref_octets[:24],
                   "emitted octets mean": short(back), "emitted_len": len(octets), "reference_len": len(ref_octets)}
+        # contents right, tag octets wrong: the root cause is Tag.encode / app_to_context, not the primitive
+        if not (ctx is None and kind == R.BOOLEAN):
+            content = R.content_of(kind, wirev)
+            if (not content or octets.endswith(content)) and octets[:len(octets) - len(content)] != ref_octets[:len(ref_octets) - len(content)]:
+                return CaseResult("tag:%s:header-differs" % mode,
+                                  "tag:header-octets-differ-from-reference:%s" % ("application" if ctx is None else "context"), detail)
         if isinstance(back, Exception):
             return CaseResult("%s:%s:malformed" % (kname, mode), "%s:malformed-octets-emitted" % kname, detail)
         if not R.same_value(kind, back, wirev):
@@ -639,12 +670,6 @@ def check_mode(K, kind, spec, seed, exp, obj, tag, ctx):
                 return CaseResult("integer:%s:wrapped" % mode, "integer:wraps-outside-32-bits", detail)
             return CaseResult("%s:%s:other-value" % (kname, mode), "%s:emits-octets-of-a-different-value" % kname, detail)
         return CaseResult("%s:%s:non-canonical" % (kname, mode), "%s:non-canonical-octets" % kname, detail)
-    if kind in (R.REAL, R.DOUBLE) and wirev != wirev:
-        # NaN: any NaN pattern of the right size is the value
-        back = R.decode_value(kind, octets, ctx)
-        if back == back:
-            return CaseResult("%s:%s:nan-lost" % (kname, mode), "%s:emits-octets-of-a-different-value" % kname,
-                              {"value": "nan", "emitted": octets})
 
     # decode what was emitted
     try:
@@ -760,7 +785,11 @@ def check_anyatomic(Kname, spec, seed):
     K = classes()[Kname]
     kind = K._app_tag
     exp = expect(K, kind, spec, seed)
-    inner = K(mk_arg(spec, seed))
+    try:
+        inner = K(mk_arg(spec, seed))
+    except Exception as err:
+        # the value part of the check judges refusals; there is nothing to wrap here
+        return CaseResult("anyatomic:%s:inner-value-refused:%s" % (R.KIND_NAMES[kind], type(err).__name__))
     try:
         a = AnyAtomic(inner)
         tag = Tag()
@@ -796,6 +825,21 @@ def record(acc, key, res, case):
 
 
 def shard(item, deadline):
+    """A crash of the harness itself is carried home in the Acc and raised by run() after the pool has ended
+    normally (terminating a pool that still has large results in flight was seen to deadlock)."""
+    try:
+        return shard_body(item, deadline)
+    except HarnessError as err:
+        acc = Acc()
+        acc.info["harness_error"] = ["%s" % err]
+        return acc
+    except Exception as err:
+        acc = Acc()
+        acc.info["harness_error"] = ["shard %r: %r\n%s" % (item, err, traceback.format_exc())]
+        return acc
+
+
+def shard_body(item, deadline):
     kindtag, lo, hi = item
     acc = Acc()
     cls = classes()
@@ -880,6 +924,8 @@ def run(tier, seed, deadline):
     items.append(("inbound", 0, 10 ** 6))
     items.append(("anyatomic", 0, 0))
     run_shards(shard, items, deadline, into=acc, ordered=True)
+    if acc.info.get("harness_error"):
+        raise HarnessError("C01 harness crashed in %d shard(s); first: %s" % (len(acc.info["harness_error"]), acc.info["harness_error"][0]))
     acc.info["classes"] = len(per_class)
     acc.info["arguments per class (largest)"] = dict(sorted(per_class.items(), key=lambda kv: -kv[1])[:14])
     acc.info["arguments"] = len(_WORK)
